@@ -31,6 +31,8 @@ def run_unit(unit):
         e, src, reg = _mk_engine(mode=mode, bound=unit.get("bound", 3), nrefs=unit.get("nrefs", 4),
                                  nstrs=unit.get("nstrs", 4), force_inline=unit.get("force_inline", ()))
         qual = unit["qual"]
+        if unit.get("layout") and mode == "UNROLL":
+            e.set_universe_layout([tuple(x) for x in unit["layout"]])
         out["span"] = src.func_span(qual)
         out["hash"] = src.func_hash(qual)
         try:
